@@ -425,6 +425,7 @@ PROPS["C10"] = dict(
         dict(module="MC_Adjust", cfg="MC_Adjust_thorough.cfg", tiers=("thorough",), workers=14, timeout=3400, heap="24g"),
         dict(module="MC_Adjust", cfg="MC_Adjust_dups_thorough.cfg", tiers=("thorough",), workers=14, timeout=3400, heap="24g"),
     ],
+    chunk=2500,        # composition events are expensive to judge (~0.1..0.3 s each): small chunks keep the 4 validation JVMs busy
     trace="Trace_C10",
     drive=dict(quick=dict(n=1500, size=3), thorough=dict(n=20000, size=5)),
     nontrivial=lambda e: len(e["args"]["orig"]) >= 1 and len(e["args"]["adj"]) >= 1,
